@@ -94,6 +94,7 @@ func (r *Runner[T]) reloadWithRestart(newConfig *Config[T]) error {
 	r.configMu.Lock()
 	r.setConfig(newConfig)
 	r.configMu.Unlock()
+	verifYield("reloadWithRestart.beforeBoot")
 
 	// Start all runnables from the new config
 	// This acquires the runnables mutex
